@@ -32,7 +32,9 @@ SPECIALS = ['"', "{", "}", "{}", '""', "{a} # {b}", '"a" # "b"', " {a} ", "{{a}}
 for _d in range(1, 9):  # nesting depth 1..8 next to sibling groups, inside braces and inside quotes
     _n = "".join("{" + chr(98 + i) + " " for i in range(_d)) + "x" + "}" * _d
     SPECIALS += ["{a %s}" % _n, "{%s {h}}" % _n, "{{h} %s}" % _n, "{a %s {h} %s z}" % (_n, _n), '"%s {h}"' % _n, "{%s}" % _n, _n, "%s {h}" % _n]
-INTS = [0, 7, 1990, -5, "0", "7", "1990", "007", "-5", "1e3", "12a", "١٢", "½", "Ⅷ", "四", "1½"]  # the last four: str.isnumeric() but not digits
+INTS = [0, 7, 1990, -5, "0", "7", "1990", "007", "-5", "1e3", "12a", "١٢", "½", "Ⅷ", "四", "1½",
+        # digits with white space around or inside, a sign, a separator: text, not digit strings (what stripping `{ 2020 }` leaves)
+        " 7", "7 ", " 1990 ", "19 90", "7\n", "\t7", "1990\x0c", "\xa07", "+7", "1_000", "1,000"]  # the last four: str.isnumeric() but not digits
 KEYS = ["year", "month", "pages", "title", "Year", "volume"]
 NUMERIC = {"year", "month", "volume", "number", "pages", "edition", "chapter", "issue"}
 OPTIONS = [(d, r, i) for d in ("{", '"') for r in (True, False) for i in (True, False)]
